@@ -700,7 +700,12 @@ class QueueCollection(object):
 
         mergeable_prs = self._extract_pr_ids(self._queues)
 
-        if not self.force_merge:
+        # The pull requests dropped on one merge path must be dropped on
+        # the others too, which may uncover new failures there: iterate
+        # until every path agrees on the same list.
+        stable = self.force_merge
+        while not stable:
+            stable = True
             for merge_path in self.merge_paths:
                 versions = [branch.version_t for branch in merge_path]
                 stack = deepcopy(self._queues)
@@ -711,12 +716,14 @@ class QueueCollection(object):
                         stack.pop(version)
 
                 # obtain list of mergeable prs on this merge_path
+                self._remove_unmergeable(mergeable_prs, stack)
                 self._recursive_lookup(stack)
                 path_mergeable_prs = self._extract_pr_ids(stack)
 
                 # smallest table is the common denominator
                 if len(path_mergeable_prs) < len(mergeable_prs):
                     mergeable_prs = path_mergeable_prs
+                    stable = False
 
         self._mergeable_prs = mergeable_prs
         mergeable_queues = deepcopy(self._queues)
